@@ -81,13 +81,13 @@ fn scenarios(thorough: bool) -> Vec<Scenario> {
         Scenario { name: "H-selector-password-2w-b2", workers: 2, bound: 2, script: "nMnn", extra: &["--vanity-password", "TREZOR", "--vanity-account-index", "3"], max_schedules: 60_000, expect_two_outcomes: true },
     ];
     if thorough {
-        v.push(Scenario { name: "I-one-shot-failure-2w-b3", workers: 2, bound: 3, script: "nFnnMn", extra: &[], max_schedules: 400_000, expect_two_outcomes: true });
-        v.push(Scenario { name: "I-one-shot-failure-3w-b2", workers: 3, bound: 2, script: "nnFnMnn", extra: &[], max_schedules: 400_000, expect_two_outcomes: true });
-        v.push(Scenario { name: "A-one-match-2w-b3", workers: 2, bound: 3, script: "nnMnnn", extra: &[], max_schedules: 400_000, expect_two_outcomes: true });
-        v.push(Scenario { name: "B-two-matches-2w-b3", workers: 2, bound: 3, script: "nnMnMnn", extra: &[], max_schedules: 400_000, expect_two_outcomes: true });
-        v.push(Scenario { name: "A-one-match-3w-b2", workers: 3, bound: 2, script: "nnMnnn", extra: &[], max_schedules: 400_000, expect_two_outcomes: true });
-        v.push(Scenario { name: "D-minimal-2w-b4", workers: 2, bound: 4, script: "nMn", extra: &[], max_schedules: 400_000, expect_two_outcomes: true });
-        v.push(Scenario { name: "D-minimal-3w-b3", workers: 3, bound: 3, script: "nMn", extra: &[], max_schedules: 400_000, expect_two_outcomes: true });
+        v.push(Scenario { name: "I-one-shot-failure-2w-b3", workers: 2, bound: 3, script: "nFnnMn", extra: &[], max_schedules: 150_000, expect_two_outcomes: true });
+        v.push(Scenario { name: "I-one-shot-failure-3w-b2", workers: 3, bound: 2, script: "nnFnMnn", extra: &[], max_schedules: 150_000, expect_two_outcomes: true });
+        v.push(Scenario { name: "A-one-match-2w-b3", workers: 2, bound: 3, script: "nnMnnn", extra: &[], max_schedules: 150_000, expect_two_outcomes: true });
+        v.push(Scenario { name: "B-two-matches-2w-b3", workers: 2, bound: 3, script: "nnMnMnn", extra: &[], max_schedules: 150_000, expect_two_outcomes: true });
+        v.push(Scenario { name: "A-one-match-3w-b2", workers: 3, bound: 2, script: "nnMnnn", extra: &[], max_schedules: 150_000, expect_two_outcomes: true });
+        v.push(Scenario { name: "D-minimal-2w-b4", workers: 2, bound: 4, script: "nMn", extra: &[], max_schedules: 150_000, expect_two_outcomes: true });
+        v.push(Scenario { name: "D-minimal-3w-b3", workers: 3, bound: 3, script: "nMn", extra: &[], max_schedules: 150_000, expect_two_outcomes: true });
     }
     v
 }
@@ -189,12 +189,14 @@ fn main() {
     // C12 (entropy failure is an error) uses the scenarios with an injected failure; C18 uses all of them
     let scs: Vec<Scenario> = scenarios(tier == "thorough").into_iter().filter(|s| only.as_ref().map_or(true, |o| o == s.name)).filter(|s| pid != "C12" || s.name.starts_with("C-") || s.name.starts_with("I-") || s.name.starts_with("A-one-match-2w"))
         // C17 (no deadlock, no panic) repeats the bound-2 scenarios in its quick tier; C18 owns the deeper ones
-        .filter(|s| pid != "C17" || tier == "thorough" || s.bound <= 2).collect();
+        .filter(|s| pid != "C17" || (s.bound <= 2 && s.workers <= 2) || (tier == "thorough" && s.bound <= 3 && s.workers <= 2)).collect();
     let handles: Vec<_> = scs.iter().map(|sc| { let (exe, scratch, tier, sc, replay) = (exe.clone(), scratch.clone(), tier.clone(), sc.clone(), only.is_some());
         rs::thread::spawn(move || {
             let res = format!("{scratch}/loom-{}.json", sc.name); let _ = rs::fs::remove_file(&res);
             let ck = if replay { format!("{ckdir}/loom-{}.ckpt", sc.name) } else { format!("{scratch}/loom-{}.ckpt", sc.name) };
             let mut c = rs::process::Command::new(&exe); c.args(["--child", sc.name, &tier, &res, &ck]); if replay { c.arg("replay"); }
+            // a child must not outlive the orchestrator (a driver time-out would otherwise leave explorations running)
+            unsafe { use rs::os::unix::process::CommandExt; c.pre_exec(|| { extern "C" { fn prctl(option: i32, arg2: u64, arg3: u64, arg4: u64, arg5: u64) -> i32; } prctl(1, 9, 0, 0, 0); Ok(()) }); }
             let out = c.stdout(rs::process::Stdio::null()).stderr(rs::process::Stdio::piped()).output().expect("spawn child");
             let text = rs::fs::read_to_string(&res).ok();
             if text.as_ref().map_or(true, |t| t.contains("\"violation\":\"")) && !replay { let _ = rs::fs::copy(&ck, format!("{ckdir}/loom-{}.ckpt", sc.name)); }
